@@ -245,6 +245,19 @@ def main(argv=None):
     args = ap.parse_args(argv)
     prop_id = args.prop
     t0 = time.time()
+    replay_key = None
+    if args.replay:
+        # a replay file records the seed and tier of the run that produced it and the failing input it found:
+        # replaying = re-running the same check with the same seed and tier and looking for the same failure key
+        try:
+            with open(args.replay) as fh:
+                rp = json.load(fh)
+            args.seed = int(rp.get("seed", args.seed))
+            args.tier = rp.get("tier", args.tier)
+            replay_key = (rp.get("failure") or {}).get("key") or rp.get("kind")
+        except (OSError, ValueError) as e:
+            print(f"TOOL-FAILURE property={prop_id}: cannot read replay file: {e}", file=sys.stderr)
+            return 2
     try:
         spec = importlib.import_module(f"tools.props.{prop_id}")
     except ModuleNotFoundError:
@@ -258,9 +271,7 @@ def main(argv=None):
     axioms_seen = set()
     theorems = []
     try:
-        if args.replay:
-            res = run_harness(prop_id, args.tier, args.seed, ["--replay", args.replay])
-        else:
+        if True:
             if not args.no_build:
                 with lean_lock():
                     # 1. regenerate the model from the current source
@@ -332,17 +343,21 @@ def main(argv=None):
         if k in seen:
             continue
         seen.add(k)
-        p = write_replay(prop_id, args.seed, dict(property=prop_id, kind="failing-input", failure=v, broken=broken,
+        p = write_replay(prop_id, args.seed, dict(property=prop_id, kind="failing-input", seed=args.seed, tier=args.tier, failure=v, broken=broken,
                                                    disagreements=disagreements[:5]))
         print(f"VIOLATION property={prop_id} replay={p}")
         rc = 1
     if not violations and (broken or disagreements):
         # property no longer shown to hold, and no failing input was found
-        p = write_replay(prop_id, args.seed, dict(property=prop_id, kind="no-longer-checks", broken=broken,
+        p = write_replay(prop_id, args.seed, dict(property=prop_id, kind="no-longer-checks", seed=args.seed, tier=args.tier, broken=broken,
                                                    disagreements=disagreements[:20],
                                                    note="no failing input found by the search: " + res.get("search_note", "")))
         print(f"VIOLATION property={prop_id} replay={p} no-failing-input-found")
         rc = 1
+
+    if replay_key is not None:
+        again = replay_key in seen or (replay_key == "no-longer-checks" and rc == 1 and not violations) or any(f.get("key") == replay_key for f, _ in known_hits)
+        print(f"REPLAY property={prop_id} key={replay_key} {'reproduced' if again else 'not-reproduced'}")
 
     cov = dict(res.get("coverage", {}))
     obligations = max(n_theorems, len(theorems)) if not broken else max(1, n_theorems + len(broken))
